@@ -573,8 +573,10 @@ def run_cfg(cfg, snapshots=False, keep_model=True):
         try:
             m, fw = build_model(cfg)
         except Exception as e:
-            res['err'] = 'setup %s: %s' % (type(e).__name__, e)
-            res['where'] = 'build'
+            import sys
+            res['err'] = 'configuring the model: %s: %s' % (type(e).__name__, e)
+            res['errtype'] = type(e).__name__
+            res['where'] = where_of(sys.exc_info()[2])
             return res
         real = ExplicitEulerIterator if cfg.get('iterator', 'euler') == 'euler' else RK4Iterator
         recs = instrument_model(m, fw, cfg) if snapshots else None
